@@ -121,7 +121,7 @@ fn call_group(c: &mut Child, seed: u64) {
             let before = mem_digest(&rig.cpu);
             let _ = rig.drain();
             let r = real_step(&mut rig.cpu);
-            let msgs = rig.drain();
+            let msgs: Vec<String> = rig.drain().into_iter().filter(|m| m.starts_with("stdout:")).collect(); // other message kinds are not C14's
             let class = [0u64, in_dram as u64, if len <= 4096 { (len as u64 + 255) / 256 } else { 16 + (len as u64).min(80000) / 4096 }, (buf + len as u32 == hi + 1) as u64];
             c.rep.cell("write-region-len-end", &class);
             match r {
@@ -177,7 +177,7 @@ fn call_group(c: &mut Child, seed: u64) {
             let vec_before: Vec<u8> = (0..256).map(|a| real_peek(&rig.cpu, a).unwrap_or(0)).collect();
             let before = mem_digest(&rig.cpu);
             let r = real_step(&mut rig.cpu);
-            let msgs = rig.drain();
+            let msgs: Vec<String> = rig.drain().into_iter().filter(|m| m.starts_with("stdout:")).collect(); // other message kinds are not C14's
             let valid = (1..64).contains(&vector);
             c.rep.cell("set_handler-vector-class", &[if valid { vector as u64 } else { 64 + (vector.min(300) as u64 / 64) }, valid as u64]);
             match r {
@@ -237,7 +237,7 @@ fn call_group(c: &mut Child, seed: u64) {
             rig.cpu.verif_set_ccr(ccr);
             rig.cpu.verif_set_pc(pc);
             let r = real_step(&mut rig.cpu);
-            let msgs = rig.drain();
+            let msgs: Vec<String> = rig.drain().into_iter().filter(|m| m.starts_with("stdout:")).collect(); // other message kinds are not C14's
             c.rep.cell("other-call", &[(id % 7) as u64]);
             match r {
                 RealOutcome::Err(_) if msgs.is_empty() => {}
